@@ -19,6 +19,7 @@ type c11Case struct {
 	W     int32       `json:"w"`
 	Keys  []gen.Bytes `json:"keys,omitempty"`
 	Dedup bool        `json:"dedup,omitempty"`
+	Big   int         `json:"big_len,omitempty"` // big strings are named by their byte length
 }
 
 func init() {
@@ -168,6 +169,47 @@ func c11Run(c *mc.Ctx) {
 		}
 		c.Count(evals, nontriv)
 	})
+	// big strings: 2^8, 2^12, 2^16 (±1) bytes, starts next to the end and next to every power of two
+	{
+		var evals int64
+		for _, p := range []uint{8, 12, 16} {
+			for _, d := range []int{-1, 0, 1} {
+				l := 1<<p + d
+				b := make([]byte, l)
+				for i := range b {
+					b[i] = byte(i*167 + i>>7 + 3)
+				}
+				sB := string(b)
+				bits := ref.Bits(sB)
+				froms := []int32{0, 1, 7, 8, 9}
+				for q := uint(5); q <= p+3; q++ {
+					for _, dd := range []int32{-1, 0, 1} {
+						if f := int32(1)<<q + dd; f >= 0 && int(f) <= 8*l+9 {
+							froms = append(froms, f)
+						}
+					}
+				}
+				for _, dd := range []int32{-33, -32, -31, -9, -8, -7, -1, 0, 1, 9} {
+					if f := int32(8*l) + dd; f >= 0 {
+						froms = append(froms, f)
+					}
+				}
+				for _, from := range froms {
+					for _, w := range []int32{0, 1, 7, 8, 9, 25, 31, 32} {
+						wk, wv := c11Ref(bits, from, w)
+						k, v, pp := fromStr32(sB, from, from+w)
+						if pp != "" || k != wk || v != wv {
+							c.Fail(2<<50|int64(l)<<24|int64(from), "FromStr32", "FromStr32/big", c11Case{Big: l, From: from, W: w}, fmt.Sprintf("%s(%d,%#x)", pp, k, v), fmt.Sprintf("(%d,%#x)", wk, wv))
+						}
+						evals++
+					}
+				}
+			}
+		}
+		c.Count(evals, evals)
+		c.Expect(evals)
+		c.Add("big_string_cases", evals)
+	}
 	// PathsOf
 	keyAlpha := []string{"", "\x00", "\xa5", "\xa5\x5a", "\xa5\x5a\xff"}
 	grid := [][2]int32{{0, 0}, {0, 1}, {0, 8}, {0, 12}, {3, 4}, {3, 13}, {8, 8}, {8, 9}, {12, 30}, {17, 5}}
@@ -213,6 +255,13 @@ func c11Run(c *mc.Ctx) {
 
 func c11Judge(kind string, cs c11Case) (got, want string) {
 	s := string(cs.S)
+	if cs.Big > 0 {
+		b := make([]byte, cs.Big)
+		for i := range b {
+			b[i] = byte(i*167 + i>>7 + 3)
+		}
+		s = string(b)
+	}
 	bits := ref.Bits(s)
 	switch kind {
 	case "FromStr32":
